@@ -14,7 +14,7 @@ Ties:
   L3 generated test contracts (regular and invariant tests, storage written by setUp) run
      through the real `halmos._main` in every order / subset, repeatedly in one process and
      under three deterministic uuid4 streams; every test's result must equal its result
-     alone (specification) and the extracted runner model (c20_run_cfg) must predict it.  Tests may
+     alone (specification) and the extracted runner model (c20_run_ann) must predict it.  Tests may
      carry function-level `@custom:halmos` annotations (--width, --loop, --invariant-depth): every
      test has its own config, the target `bump(uint256)` makes the explored transactions depend on
      the loop bound of the config that explores them; which config object run_target_function
@@ -29,7 +29,7 @@ import time
 from harness import common, pool
 
 PID = "C20"
-TRANSLATORS = ["T-copies", "T-frontierflow"]
+TRANSLATORS = ["T-copies", "T-callbackcopies", "T-frontierflow"]
 
 # Genuine defects of halmos reproduced by this check on the unchanged tree (reported, not repaired).
 KNOWN = common.known_for("C20")  # entries live in /verif/known_findings.json
@@ -301,13 +301,14 @@ def body_codes(spec, t, c):
 
 
 def model_input(spec, order, budgets):
-    """encoding for c20_run_cfg; budgets: {test index: k} (paths pulled before the break).
+    """encoding for c20_run_ann; budgets: {test index: k} (paths pulled before the break).
     State NSTATES-1 is the post-setUp state (counter slot never written, value 0): halmos' state id
     distinguishes it from the state in which 0 has been written explicitly (state 0).
     A config is identified with its loop bound (0..MAX_LOOP): the step table of config e is what one target
     transaction reaches when it is explored under --loop e (bump: c+0 -- no SSTORE, the very same state -- ... c+e).
-    Every test carries its own config (annotation over the contract's) and its own depth; WHICH config explores
-    the frontier is not decided here but by the model (Model.frontier_cfg, regenerated from __main__.py)."""
+    Every test carries its raw annotation (loop bound / depth overrides); WHICH base config the annotation is applied to
+    (the contract's, or the previous test's) and WHICH config explores the frontier is not decided here but by the model
+    (Model.next_base, Model.frontier_cfg: regenerated from __main__.py)."""
     K, P = 8, 2
     n = NSTATES
     nc = MAX_LOOP + 1
@@ -324,10 +325,11 @@ def model_input(spec, order, budgets):
                 succ += [v for v in vs if v is not None and (v < n - 1 or v == idx)]
             assert len(succ) <= K, succ
             steps += succ + [-1] * (K - len(succ))
-    a = [n, K, P, n - 1, len(order), nc, contract_loop(spec)] + steps + list(range(n))
+    a = [n, K, P, n - 1, len(order), nc, contract_loop(spec) * 16 + spec["depth"]] + steps + list(range(n))
     for i in order:
         t = spec["tests"][i]
-        a += [test_loop(spec, t), test_depth(spec, t), budgets.get(i, -1)]
+        o = test_opts(spec, t)
+        a += [1 if t[1].startswith("inv_") else 0, o.get("loop", -1), o.get("invariant-depth", -1), budgets.get(i, -1)]
         for idx in range(n):
             codes = body_codes(spec, t, cval(idx))
             a += codes + [-1] * (P - len(codes))
@@ -385,6 +387,7 @@ def analyse_contract(rep, res, model, record):
     ee = bool(spec.get("early_exit"))
     alone = {}
     nontrivial = False
+    n_same = {}
     # run-time cross-check of T-frontierflow: the config object run_target_function received while a test
     # with a private config was running
     seen = set(res.get("explore_cfg_seen") or [])
@@ -433,7 +436,12 @@ def analyse_contract(rep, res, model, record):
             failure = dict(kind="failing-input",
                            what=f"{sig_of(t)} gives {g} after {[sig_of(e) for e in earlier]} (run {run['label']}, uid stream {run['uid']}) but {a} alone; contract {spec}",
                            case={"spec": spec, "run": run, "alone": a, "in_schedule": g}, sig=sig)
-            record(failure)
+            # the same defect shows up in every schedule of the contract: two instances per (contract, defect) are reported
+            n_same[sig["defect"]] = n_same.get(sig["defect"], 0) + 1
+            if n_same[sig["defect"]] <= 2:
+                record(failure)
+            else:
+                rep.count("failures_not_repeated", sig["defect"])
     # model: the extracted runner predicts exit code / path counts of every test of the whole-contract runs
     if model is not None and modelable(spec):
         for r in res["runs"]:
@@ -469,7 +477,7 @@ FLOW = {}     # info of T-frontierflow (filled by run)
 def model_results(spec, idxs, budgets, model):
     key = (json.dumps(spec, sort_keys=True), tuple(idxs), tuple(sorted(budgets.items())))
     if key not in _MODEL_CACHE:
-        res = model.batch([("c20_run_cfg", model_input(spec, idxs, budgets))])[0]
+        res = model.batch([("c20_run_ann", model_input(spec, idxs, budgets))])[0]
         _MODEL_CACHE[key] = [result_of_codes(c) for c in decode_model(res, len(idxs))]
     return _MODEL_CACHE[key]
 
@@ -630,6 +638,48 @@ def l2_descs(r, tier):
     return descs
 
 
+def l2_corpus_descs():
+    """hand-written programs that exercise every place where sibling states are derived AFTER a sub-call: the return
+    callback of call_known builds one continuation per outcome of the callee from the caller state / the backups that all
+    outcomes share.  A calls B with the symbolic word arg0; B ends on three paths (x == 1, x == 2, otherwise); every
+    continuation of A checks that the slot it is about to write is still zero (INVALID otherwise) and then writes it:
+    a write of one continuation that is visible to a sibling shows up as a changed fingerprint of the waiting Exec and as a
+    leaf that differs from the same path explored alone."""
+    from harness.asm import assemble
+
+    b_addr = 0xB0B
+
+    def callee(first, second):
+        # x = calldataload(0); x == 1 -> `first`; x == 2 -> `second`; otherwise STOP
+        ends = {"revert": ["PUSH0", "PUSH0", "REVERT"], "stop": ["STOP"], "write": [("push", 5), ("push", 3), "SSTORE", "STOP"],
+                "invalid": ["INVALID"]}
+        return assemble(["PUSH0", "CALLDATALOAD", "DUP1", ("push", 1), "EQ", ("ref", "P1"), "JUMPI",
+                         "DUP1", ("push", 2), "EQ", ("ref", "P2"), "JUMPI", "STOP",
+                         ("label", "P1")] + ends[first] + [("label", "P2")] + ends[second])
+
+    def caller(op_load, op_store, only_failed, callop="CALL"):
+        args = ["PUSH0", "PUSH0", ("push", 0x20), "PUSH0"] + (["PUSH0"] if callop in ("CALL", "CALLCODE") else [])
+        items = [("push", 4), "CALLDATALOAD", "PUSH0", "MSTORE"] + args + [("push", b_addr), "GAS", callop]
+        items += [("ref", "OK"), "JUMPI"] if only_failed else ["POP"]
+        items += ["PUSH0", op_load, ("ref", "BAD"), "JUMPI", ("push", 1), "PUSH0", op_store, "STOP",
+                  ("label", "OK"), "STOP", ("label", "BAD"), "INVALID"]
+        return assemble(items)
+
+    out = []
+    for first, second, ld, stv, only_failed, callop in [
+            ("revert", "revert", "SLOAD", "SSTORE", True, "CALL"),       # two failing outcomes, storage
+            ("revert", "invalid", "TLOAD", "TSTORE", True, "CALL"),      # two failing outcomes, transient storage
+            ("write", "revert", "SLOAD", "SSTORE", False, "CALL"),       # succeeding and failing outcomes
+            ("revert", "revert", "SLOAD", "SSTORE", True, "DELEGATECALL"),
+    ]:
+        out.append({"code": caller(ld, stv, only_failed, callop).hex(), "callees": {hex(b_addr): callee(first, second).hex()},
+                    "nargs": 1, "profile": "c20-call-outcomes"})
+    return out
+
+
+N_L2_CORPUS = 4
+
+
 def any_task(task):
     kind, payload = task
     if kind == "l3":
@@ -658,10 +708,12 @@ def run(rep, tier):
     known_hits = []
 
     def record(failure):
+        # Report.finish matches failing inputs against known_findings.json and prints the KNOWN-FINDING lines;
+        # the hits are only counted here (coverage)
         for k in KNOWN:
             if common.finding_matches(k, failure):
-                known_hits.append((k, failure))
-                return
+                known_hits.append((k, dict(failure)))
+                break
         rep.fail(failure.pop("kind"), failure.pop("what"), **failure)
 
     # --- store tie
@@ -695,7 +747,8 @@ def run(rep, tier):
     for i in range(n_gen):
         specs.append(gen_spec(r, i, flavours[i % len(flavours)]))
     l3_tasks = [("l3", (s, plan_for(s, r, tier))) for s in specs]
-    descs = l2_descs(r, tier)
+    descs = l2_corpus_descs() + l2_descs(r, tier)
+    assert descs[N_L2_CORPUS - 1]["profile"] == "c20-call-outcomes"
     l2_tasks = [("l2", (1000 + i, d)) for i, d in enumerate(descs)]
     # phase 1: the corpus contracts and a few branching programs, whatever the machine load;
     # phase 2: the generated rest within the remaining time budget of the tier
@@ -747,6 +800,9 @@ def run(rep, tier):
                 rep.fail("broken-tie", f"L2 worker failed on scenario {seed}: {str(val)[-600:]}", case={"scenario": d})
                 continue
             rep.case({"l2": seed, "paths": val["n_paths"]}, nontrivial=val["branching"])
+            if d.get("profile") == "c20-call-outcomes" and (val["n_paths"] < 3 or val["flags"]["crashed"]):
+                rep.fail("broken-tie", f"L2 corpus program {seed} (continuations after a sub-call) was explored with {val['n_paths']} paths "
+                         f"({val['kinds']}, {val['flags']}): it no longer exercises the sibling continuations", case={"scenario": d})
             n_branching += bool(val["branching"])
             n_red += val["rederived"]
             for leak in val["leaks"][:3]:
@@ -764,13 +820,7 @@ def run(rep, tier):
     if n_branching < 2:
         rep.fail("broken-tie", f"only {n_branching} branching programs explored by the L2 sibling check", case={})
 
-    seen = set()
-    for k, f in known_hits:
-        if k["id"] not in seen:
-            seen.add(k["id"])
-            print(f"KNOWN-FINDING: property={PID} {k['id']}: {k['what']}")
-            print(f"  failing input: {f['what'][:700]}")
-    rep.coverage["known_findings_hit_module"] = sorted(seen)
+    rep.coverage["known_findings_hit_module"] = sorted({k["id"] for k, _f in known_hits})
     distinct_cases = {}
     for _k, f in known_hits:
         distinct_cases.setdefault((f["case"]["spec"]["id"], f["sig"].get("interrupt")), f["case"])
